@@ -51,6 +51,7 @@ def plan(tier, seed):
                 for d in TLCP_ONLY:
                     units.append({'kind': 'case', 'proto': proto, 'role': 'client-verifies-server', 'defect': d, 'rep': rep,
                                   'weight': 2})
+        units.append({'kind': 'hostile13', 'variants': HOSTILE13, 'rep': rep, 'weight': 4})
     return units
 
 
@@ -283,5 +284,155 @@ def u_case(ctx, u):
                 'client_ret': out['client_ret'], 'records_seen': len(out['records'])})
 
 
+# ---- TLS 1.3 server against a hostile client that controls its own messages (vf/hostile13.py) -------------------------
+
+HOSTILE13 = ['honest', 'no-certificate-verify', 'certificate-verify-with-other-key', 'certificate-verify-garbage',
+             'certificate-verify-other-scheme-valid-signature', 'certificate-verify-other-scheme-garbage',
+             'certificate-verify-over-other-transcript', 'no-certificate-no-verify', 'empty-certificate-list',
+             'finished-first-then-certificate', 'certificate-twice', 'certificate-of-server-as-client', 'foreign-chain-own-key',
+             'certificate-verify-before-certificate']
+
+
+def u_hostile13(ctx, u):
+    """The verifier is the library's TLS 1.3 server with client-authentication trust anchors; the client is the Python peer.
+    `honest` is the positive control (it must complete - that shows the peer speaks the protocol correctly); every other
+    variant lacks a valid proof of possession for a chain the server trusts and must never make the server complete."""
+    import socket
+    import threading
+    from .. import hostile13 as HS
+    rng = ctx.rng
+    tag = 'c09h-%d' % u['_i']
+    uu = {'proto': 'tls13', 'role': 'server-verifies-client'}
+    creds, hooks, mutual = scenario(ctx, uu, None, tag)
+    c_chain, c_priv, _ = build_chain(tag + '-c', None, leaf_cn='client')
+    s_chain, s_priv, _ = build_chain(tag + '-s', None, leaf_cn='server')
+    try:
+        srv_ctx, cli_ctx = T.pair_ctx(ctx, creds, T.TLS13, True)
+    except AssertionError as e:
+        ctx.check(False, 'control:honest-scenario-failed:tls13:server-verifies-client', error=str(e))
+        return
+    base = T.run_handshake(ctx, srv_ctx, cli_ctx, seed=rng.randrange(1, 1 << 30), use_proxy=True)
+    ok = base['server'].ret == 1 and base['client'].ret == 1
+    ch = [r for i, d, r in base['proxy'].records if d == 'c>s' and r[0] == T.REC_HANDSHAKE and r[5] == 1]
+    T.close_pair(base)
+    if not ctx.check(ok and ch, 'control:honest-scenario-failed:tls13:server-verifies-client', note='library client against library server'):
+        return
+    # a second, unrelated hierarchy the server does not trust
+    f_chain, f_priv, _ = build_chain(tag + '-foreign', None, leaf_cn='client')
+    other_priv = X.priv_from_seed(tag, 'attacker-key')
+    for variant in u['variants']:
+        c_end, s_end = socket.socketpair()
+        srv = T.Endpoint(ctx, srv_ctx, s_end, 's', rng.randrange(1, 1 << 30), False)
+        th = threading.Thread(target=srv.handshake)
+        th.start()
+        cl = HS.Client(c_end, ch[0], rng.randrange(1, R.N - 1))
+        note = None
+        try:
+            ctx.begin(['hostile13', variant])
+            if not cl.start():
+                note = 'server flight: ' + '; '.join(cl.log)
+            elif not cl.certificate_requested():
+                note = 'the server did not request a certificate'
+            else:
+                cert = HS.certificate_msg(c_chain)
+                k = rng.randrange(1, R.N - 1)
+                if variant == 'honest':
+                    cl.send_hs(cert)
+                    cl.send_hs(HS.certificate_verify_msg(c_priv, cl.transcript, k=k))
+                elif variant == 'no-certificate-verify':
+                    cl.send_hs(cert)
+                elif variant == 'certificate-verify-with-other-key':
+                    cl.send_hs(cert)
+                    cl.send_hs(HS.certificate_verify_msg(other_priv, cl.transcript, k=k))
+                elif variant == 'certificate-verify-garbage':
+                    cl.send_hs(cert)
+                    cl.send_hs(HS.certificate_verify_msg(None, cl.transcript, garbage=rng.randbytes(71)))
+                elif variant == 'certificate-verify-other-scheme-valid-signature':
+                    cl.send_hs(cert)
+                    cl.send_hs(HS.certificate_verify_msg(other_priv, cl.transcript, scheme=rng.choice([0x0403, 0x0807, 0x0804, 0x0201]), k=k))
+                elif variant == 'certificate-verify-other-scheme-garbage':
+                    cl.send_hs(cert)
+                    cl.send_hs(HS.certificate_verify_msg(None, cl.transcript, scheme=rng.choice([0x0403, 0x0807, 0x0000, 0xffff]),
+                                                         garbage=rng.randbytes(rng.choice([0, 1, 64, 72]))))
+                elif variant == 'certificate-verify-over-other-transcript':
+                    cl.send_hs(cert)
+                    cl.send_hs(HS.certificate_verify_msg(c_priv, cl.transcript[:-1], k=k))
+                elif variant == 'no-certificate-no-verify':
+                    pass
+                elif variant == 'empty-certificate-list':
+                    cl.send_hs(HS.hs_msg(11, b'\x00\x00\x00\x00'))
+                elif variant == 'finished-first-then-certificate':
+                    cl.send_hs(cl.finished_msg())
+                    cl.send_hs(cert)
+                    cl.send_hs(HS.certificate_verify_msg(other_priv, cl.transcript, k=k))
+                elif variant == 'certificate-twice':
+                    cl.send_hs(cert)
+                    cl.send_hs(cert)
+                elif variant == 'certificate-of-server-as-client':
+                    cl.send_hs(HS.certificate_msg(s_chain))
+                    cl.send_hs(HS.certificate_verify_msg(other_priv, cl.transcript, k=k))
+                elif variant == 'foreign-chain-own-key':
+                    cl.send_hs(HS.certificate_msg(f_chain))
+                    cl.send_hs(HS.certificate_verify_msg(f_priv, cl.transcript, k=k))
+                elif variant == 'certificate-verify-before-certificate':
+                    cl.send_hs(HS.certificate_verify_msg(c_priv, cl.transcript, k=k))
+                    cl.send_hs(cert)
+                cl.send_hs(cl.finished_msg())
+                try:
+                    cl.send_app_data(b'hostile13 application data')
+                except OSError:
+                    pass
+        except (OSError, ValueError) as e:
+            note = 'peer: %s' % e
+        th.join(20)
+        hung = th.is_alive()
+        if hung:
+            try:
+                c_end.shutdown(socket.SHUT_RDWR)
+            except OSError:
+                pass
+            th.join(10)
+        det = dict(proto='tls13', role='server-verifies-client', variant=variant, note=note, server_messages=cl.server_msgs)
+        if variant == 'honest':
+            ctx.check(srv.ret == 1 and note is None, 'control:python-peer-honest-handshake-failed:tls13', server_ret=srv.ret, **det)
+            if srv.ret == 1:
+                # the application data sent under the client's traffic key must arrive: the peer's key schedule is the server's
+                got = {}
+
+                def rd():
+                    srv.thread_setup()
+                    got['r'] = srv.recv(256)
+                t2 = threading.Thread(target=rd)
+                t2.start()
+                t2.join(5)
+                if t2.is_alive():
+                    try:
+                        c_end.shutdown(socket.SHUT_RDWR)
+                    except OSError:
+                        pass
+                    t2.join(5)
+                r = got.get('r')
+                ctx.check(bool(r) and r[0] == 1 and r[1] == b'hostile13 application data', 'control:python-peer-application-data-not-delivered:tls13',
+                          got=repr(r)[:80])
+            ctx.nontrivial('hostile13', 'honest', u.get('rep'))
+        else:
+            if hung:
+                ctx.stat('hostile13_server_waited_until_close')
+            ctx.check(srv.ret != 1, 'auth-bypass:hostile-client:%s:tls13:server-verifies-client' % variant, server_ret=srv.ret, **det)
+            ctx.nontrivial('hostile13', variant, u.get('rep'))
+            ctx.stat('defect_cases')
+            if note is None:
+                ctx.stat('hostile13_variants_delivered')
+        for sk in (c_end, s_end):
+            try:
+                sk.close()
+            except OSError:
+                pass
+        srv.conn.free()
+    ctx.sample({'kind': 'hostile13', 'variants': len(u['variants'])})
+    srv_ctx.free()
+    cli_ctx.free()
+
+
 def run_unit(ctx, u):
-    u_case(ctx, u)
+    {'case': u_case, 'hostile13': u_hostile13}[u['kind']](ctx, u)
